@@ -328,6 +328,12 @@ def run_threaded(sc, max_rounds=120):
                 c.sem.release()
         for c in sched.callers:
             c.thread.join(timeout=5)
+            if c.thread.is_alive():
+                # a caller thread that never comes back to a switch point (runaway work inside one emit): stop it
+                # from the outside, or it keeps eating memory for as long as the worker process lives
+                import ctypes
+                ctypes.pythonapi.PyThreadState_SetAsyncExc(ctypes.c_ulong(c.thread.ident), ctypes.py_object(SimAbort))
+                c.thread.join(timeout=5)
             il = getattr(c, 'idle_loop', None)
             if il is not None:
                 il._closed = True
